@@ -93,9 +93,18 @@ fn main_c11(tier: &str, seed: u64, replay: Option<&str>) -> i32 {
             }
         };
     }
-    let n = if tier == "thorough" { 400_000 } else { 6_000 };
+    let worddiff = std::env::var("DELTASIM_CALLER").as_deref() == Ok("worddiff");
+    let n = match (tier == "thorough", worddiff) {
+        (true, false) => 400_000,
+        (true, true) => 40_000,
+        (false, false) => 6_000,
+        (false, true) => 800,
+    };
     let results = par_map(n, &|i| {
-        let case = c11::gen_case(seed, i);
+        let mut case = c11::gen_case(seed, i);
+        if worddiff {
+            c11::to_word_diff(&mut case);
+        }
         // fresh thread: the hash keys of this case derive from its own seed
         sim::on_fresh_thread(simcore::rng::mix(seed, &[simcore::rng::tag("C11-hash"), i as u64]), move || c11::check_case(&case))
     });
@@ -118,7 +127,7 @@ fn main_c11(tier: &str, seed: u64, replay: Option<&str>) -> i32 {
         vec!["--no-gitconfig".into(), "--width".into(), "120".into(), "--color-only".into()],
     ];
     // every configuration with ordinary lines and with over-long lines
-    let mem: Vec<(Option<Violation>, serde_json::Value)> = par_map(mem_cfgs.len() * 2, &|j| {
+    let mem: Vec<(Option<Violation>, serde_json::Value)> = par_map(if worddiff { 0 } else { mem_cfgs.len() * 2 }, &|j| {
         let i = j / 2;
         let long = j % 2 == 1;
         let a = mem_cfgs[i].clone();
@@ -141,6 +150,9 @@ fn main_c11(tier: &str, seed: u64, replay: Option<&str>) -> i32 {
         reported.insert(v.signature.clone());
         // minimise: fewer lines, coarser schedule, no faults, fewer options — same oracle
         let mut case = c11::gen_case(seed, *i);
+        if worddiff {
+            c11::to_word_diff(&mut case);
+        }
         let oracle = v.oracle.clone();
         let fails = |c: &c11::Case| c11::check_case(c).0.iter().any(|x| x.oracle == oracle);
         let mut budget = 300usize;
@@ -211,6 +223,24 @@ fn main_c11(tier: &str, seed: u64, replay: Option<&str>) -> i32 {
     for (sigk, (what, nn)) in &known_hit {
         println!("KNOWN-FINDING: property=C11 {} [{}] ({} cases)", what, sigk, nn);
     }
+    // second pass: word-diff input needs another calling process, hence another OS process
+    let mut wd_counters: Option<serde_json::Value> = None;
+    if !worddiff {
+        let part = format!("{}.worddiff", evidence_path("C11"));
+        let st = std::process::Command::new(std::env::current_exe().unwrap()).args(["C11", tier]).env("DELTASIM_CALLER", "worddiff").env("EVIDENCE_PART", &part).status();
+        match st.map(|s| s.code()) {
+            Ok(Some(0)) => {}
+            Ok(Some(1)) => exit = 1,
+            _ => {
+                eprintln!("HARNESS-ERROR: word-diff pass failed to run");
+                if exit == 0 {
+                    exit = 2;
+                }
+            }
+        }
+        wd_counters = std::fs::read_to_string(&part).ok().and_then(|t| serde_json::from_str::<serde_json::Value>(&t).ok()).map(|v| v["coverage"]["counters"].clone());
+        let _ = std::fs::remove_file(&part);
+    }
     let mut ev = Evidence::new("C11", tier, seed, "exploration");
     ev.evaluations = counters.get("delta_runs").copied().unwrap_or(0);
     ev.distinct_nontrivial = results.iter().filter(|(_, st)| st.lag.in_hunk_points > 0).count() as u64;
@@ -224,6 +254,10 @@ fn main_c11(tier: &str, seed: u64, replay: Option<&str>) -> i32 {
         json!({"args": c.opts.args, "rschedule": c.rschedule, "wplan": c.wplan, "input_first_lines": c.lines.iter().take(12).map(|l| l.text.clone()).collect::<Vec<_>>()})
     }).collect();
     ev.extra.insert("memory_oracle".into(), json!(mem_samples));
+    if let Some(w) = wd_counters {
+        ev.evaluations += w["delta_runs"].as_u64().unwrap_or(0);
+        ev.extra.insert("word_diff_pass_counters".into(), w);
+    }
     ev.extra.insert("engine".into(), json!("E2-inproc: delta's sources linked as a library via a shadow manifest (cfg dandavison_delta_verif), delta::delta() driven through its BufRead and Write parameters"));
     ev.extra.insert("real_vs_stub".into(), json!({"real": ["option parsing, Config::from, StateMachine::consume and everything below it"], "stub": ["reader (SimReader) and writer (SimWriter) are the simulator; calling process fixed to a launched `git diff`"]}));
     ev.extra.insert("simulated_steps".into(), json!({"quiescence_points": ev.counters.get("quiescence_points_checked"), "simulated_time_covered_s": ev.counters.get("simulated_time_covered_ms").copied().unwrap_or(0) / 1000}));
@@ -239,12 +273,12 @@ fn main_c11(tier: &str, seed: u64, replay: Option<&str>) -> i32 {
     }
     // reach probes
     for probe in ["quiescence_points_inside_hunk", "points_with_held_lines_exactly_at_bound", "points_in_run_longer_than_bound.minus", "points_in_run_longer_than_bound.plus", "fault_fired.read_eintr", "fault_fired.write_eintr", "fault_fired.short_write", "fault_fired.producer_pause_clock_advance", "chunk_boundary_inside_utf8_sequence"] {
-        if ev.counters.get(probe).copied().unwrap_or(0) == 0 && exit == 0 {
+        if !worddiff && ev.counters.get(probe).copied().unwrap_or(0) == 0 && exit == 0 {
             eprintln!("HARNESS-ERROR: probe {} stuck at zero", probe);
             exit = 2;
         }
     }
-    println!("C11 {} (E2): {} cases, {} delta runs, {} quiescence points checked ({} inside hunks), max held -{} +{}, {} violations, {:.1}s", tier, n, ev.evaluations, ev.counters["quiescence_points_checked"], ev.counters["quiescence_points_inside_hunk"], ev.counters["max_held_minus"], ev.counters["max_held_plus"], reported.len(), ev.wall_s);
+    println!("C11 {} (E2{}): {} cases, {} delta runs, {} quiescence points checked ({} inside hunks), max held -{} +{}, {} violations, {:.1}s", tier, if worddiff { ", word-diff pass" } else { "" }, n, ev.evaluations, ev.counters["quiescence_points_checked"], ev.counters["quiescence_points_inside_hunk"], ev.counters["max_held_minus"], ev.counters["max_held_plus"], reported.len(), ev.wall_s);
     exit
 }
 
@@ -253,7 +287,13 @@ fn main() {
     quiet_panics();
     // The calling process is process-global and `calling_process()` blocks until it is known:
     // publish a launched command once (what `delta git diff` does before creating its Config).
-    dh::set_calling_process(&["git".to_string(), "diff".to_string()]);
+    // DELTASIM_CALLER=worddiff: second pass of C11 in a process of its own, whose (process-global)
+    // calling process is `git diff --word-diff`.
+    if std::env::var("DELTASIM_CALLER").as_deref() == Ok("worddiff") {
+        dh::set_calling_process(&["git".to_string(), "diff".to_string(), "--word-diff".to_string()]);
+    } else {
+        dh::set_calling_process(&["git".to_string(), "diff".to_string()]);
+    }
     let tier = args.get(2).map(|s| s.as_str()).unwrap_or("quick").to_string();
     let replay = args.iter().position(|a| a == "--replay").and_then(|i| args.get(i + 1)).cloned();
     let seed = verif_seed();
